@@ -808,3 +808,141 @@ def lifecycle_family(run, replay=None):
             log('  %s' % str(fresh[:3])[:300])
             return 1
     return rc
+
+
+# =====================================================================================================
+# Characteristic cell (C12, C11 at the update API)
+# =====================================================================================================
+
+CH_RULES = {'TypeOK': 'C12', 'RangeOK': 'C12', 'NoUpdatePanic': 'C12', 'NoGetterPanic': 'C12', 'Encodes': 'C12',
+            'NoWriteWithoutPw': 'C11', 'NoValueWithoutPr': 'C11', 'NoEventsWithoutEv': 'C11', 'SubRefused': 'C11'}
+CH_CONSTS = 'CONSTANTS\n  Formats = {"bool", "int", "float", "string"}\n  PermSets <- PermSetsDef\n  Bounds <- BoundsDef\n'
+
+
+def charcell_gen(run):
+    thorough = run.tier == 'thorough'
+    run.model_check('CharacteristicMC', 'Characteristic_MC.cfg', workers=4)
+    t = 'INIT GInit\nNEXT GNext\n'
+    one = run.generate('CharacteristicGen', cfgtext='CONSTANTS\n  Formats = {"int"}\n  PermSets = {{"pr", "pw", "ev"}}\n  Bounds <- BoundsDef\n  Weak = {}\n  MaxLen = 1\n' + t + 'INVARIANT EmitWord\nCONSTRAINT WordBound\nCHECK_DEADLOCK FALSE\n')
+    two = run.generate('CharacteristicGen', cfgtext='CONSTANTS\n  Formats = {"int"}\n  PermSets = {{"pr", "pw", "ev"}}\n  Bounds <- BoundsDef\n  Weak = {}\n  MaxLen = 2\n' + t + 'INVARIANT EmitWord\nCONSTRAINT WordBound\nCHECK_DEADLOCK FALSE\n')
+    three = []
+    if thorough:
+        three = run.generate('CharacteristicGen', cfgtext='CONSTANTS\n  Formats = {"int"}\n  PermSets = {{"pr", "pw", "ev"}}\n  Bounds <- BoundsDef\n  Weak = {}\n  MaxLen = 3\n' + t + 'INVARIANT EmitWord\nCONSTRAINT WordBound\nCHECK_DEADLOCK FALSE\n', timeout=1200)
+        three = sample(three, 3000, run.seed)
+    uniq = lambda ws: [json.loads(x) for x in sorted(set(json.dumps([{k: v for k, v in s.items() if k != 'exp'} for s in w]) for w in ws))]
+    one, two, three = uniq(one), uniq(two), uniq(three)
+    attacks = []
+    for g in (["string_formats_converted"], ["string_formats_converted", "compare_is_total"], ["write_needs_pw"], ["store_needs_pr"]):
+        a = run.generate('CharacteristicGen', cfgtext=CH_CONSTS + '  Weak = %s\n' % tla_set(g) + t + 'INVARIANT NoAttack\nVIEW AttackView\nCHECK_DEADLOCK FALSE\n', expect_violation=True)
+        if not a:
+            raise ToolTrouble('no attack word for guards %s' % g)
+        attacks.append(('+'.join(g), a[0]))
+    groups = [('word1', one), ('word2', two), ('word3', three)] + [('attack:' + g, [a]) for g, a in attacks]
+    return groups, dict(words_len1=len(one), words_len2=len(two), words_len3=len(three), attack_words=len(attacks))
+
+
+def charcell_family(run, replay=None):
+    def extra(lines, behs):
+        cells = set(x.get('cell') for x in lines)
+        return dict(cells=len(cells), library_constructors=len([c for c in cells if not str(c).startswith('synthetic/')]),
+                    updates=sum(1 for x in lines if x.get('a') == 'Update'), typed_gets=sum(1 for x in lines if x.get('a') == 'TypedGet'))
+
+    def fp(rule, b, line):
+        perms = line.get('perms', [])
+        return '%s/fmt=%s,cls=%s,%s,perms=%s' % (rule, line.get('fmt'), line.get('cls'), 'remote' if line.get('remote') else 'local', '+'.join(perms) if len(perms) < 3 else 'all')
+    return generic_family(run, replay, hcv='charcell', trace_mod='CharacteristicTrace', gen=charcell_gen, rules=CH_RULES, level='model_checking',
+                          assumptions=['constructors are found by scanning /repo/characteristic at build time (zero-argument New* functions); synthetic cells cover every permission set for every format class',
+                                       'each JSON value class is concretised by a few representative values placed around the cell\'s declared bounds; remote values look like decoded JSON (float64 numbers)',
+                                       'the format-range rule for cells WITHOUT declared bounds (e.g. a negative number in a uint8 cell) is not part of the verdict: the property speaks of the declared minimum and maximum'],
+                          rule_text='every update word over 15 JSON value classes x {local, remote} plus typed getter (all words of length 1 on every cell; length 2 on a seeded twelfth of the cells in quick, on all cells in thorough; sampled length 3 in thorough; attack words per named guard) applied to every characteristic constructor of the library and to synthetic cells; distinct = abstract word; non-trivial = contains an update',
+                          nontrivial=lambda b: any(s.get('a') == 'Update' for s in b['steps']), extra_cov=extra, fpfun=fp)
+
+
+REGISTRY['C12'] = charcell_family
+
+
+# =====================================================================================================
+# Characteristic through the stack (C09, C11 over HTTP)
+# =====================================================================================================
+
+CS_RULES = {'ReadsSeeLastWrite': 'C09', 'WriteReachesApp': 'C09', 'ShapeRule': 'C09', 'NoPanic': 'C09', 'SubAccepted': 'C09',
+            'NoWriteWithoutPw': 'C11', 'NoValueWithoutPr': 'C11', 'SubRefused': 'C11', 'NoEventsWithoutEv': 'C11'}
+
+
+def cs_cfg(perms, maxlist, weak=(), tail='', consts=''):
+    return 'CONSTANTS\n  Perms = %s\n  Tok = {"v0", "v1", "v2"}\n  Ids = {"e1", "e2", "wo", "missing"}\n  MaxList = %d\n  Weak = %s\n  %s\nCHECK_DEADLOCK FALSE\n%s\n' % (tla_set(perms), maxlist, tla_set(weak), consts, tail)
+
+
+def charstack_gen(run):
+    thorough = run.tier == 'thorough'
+    for perms in (["pr", "pw", "ev"], ["pw"], ["pr"], ["pr", "ev"]):
+        run.model_check('CharStack', 'mc.cfg', workers=2, cfgtext=cs_cfg(perms, 3, tail='SPECIFICATION Spec\nINVARIANTS ReadsSeeLastWrite NoValueWithoutPr NoEventsWithoutEv ShapeRule\nPROPERTIES NoWriteWithoutPw'))
+    t = 'INIT GInit\nNEXT GNext\n'
+    n = 4 if thorough else 3
+    words = run.generate('CharStackGen', cfgtext=cs_cfg(["pr", "pw", "ev"], 1, consts='MaxLen = %d' % n, tail=t + 'INVARIANT EmitWord\nCONSTRAINT WordBound'), timeout=1200)
+    # register words and list reads are separate kinds of case
+    reg = [w for w in words if not any(s['a'] == 'ReadList' for s in w)]
+    reg = [json.loads(x) for x in sorted(set(json.dumps([{k: v for k, v in s.items() if k not in ('exp', 'ids')} for s in w]) for w in reg))]
+    nreg = len(reg)
+    reg = sample(reg, 1500 if thorough else 240, run.seed)
+    import itertools
+    kinds = ["e1", "e2", "wo", "missing"]
+    lists = [[dict(a='ReadList', tok='none', ids=list(c))] for k in range(1, (4 if thorough else 3) + 1) for c in itertools.product(kinds, repeat=k)]
+    attacks = []
+    for perms, g in ((["pw"], "status_in_every_entry"), (["pr"], "write_needs_pw"), (["pr", "pw"], "subscribe_needs_ev")):
+        a = run.generate('CharStackGen', cfgtext=cs_cfg(perms, 2, weak=[g], tail=t + 'INVARIANT NoAttack\nVIEW AttackView'), expect_violation=True)
+        if not a:
+            raise ToolTrouble('no attack word for guard %s' % g)
+        w = a[0]
+        if any(s['a'] == 'ReadList' for s in w):
+            lists.append([s for s in w if s['a'] == 'ReadList'][:1])
+        else:
+            attacks.append((g, [{k: v for k, v in s.items() if k not in ('exp', 'ids')} for s in w]))
+    groups = [('word', reg), ('list', lists)] + [('attack:' + g, [a]) for g, a in attacks]
+    return groups, dict(register_words_enumerated=nreg, register_words_replayed=len(reg), word_len=n, id_lists=len(lists))
+
+
+def charstack_family(run, replay=None):
+    def extra(lines, behs):
+        cells = set(x.get('cell') for x in lines if x.get('cell'))
+        return dict(characteristics=len(cells), remote_reads=sum(1 for x in lines if x.get('a') == 'RemoteRead'), remote_writes=sum(1 for x in lines if x.get('a') == 'RemoteWrite'),
+                    accessories_reads=sum(1 for x in lines if x.get('a') == 'AccRead'), list_reads=sum(1 for x in lines if x.get('ev') == 'list'),
+                    subscriptions=sum(1 for x in lines if x.get('a') == 'Sub'))
+
+    def fp(rule, b, line):
+        if line.get('ev') == 'list':
+            return '%s/list=%s' % (rule, ','.join(sorted(set(line.get('kinds', [])))))
+        perms = line.get('perms', [])
+        return '%s/%s,fmt=%s,perms=%s' % (rule, line.get('a'), line.get('fmt'), '+'.join(perms))
+    return generic_family(run, replay, hcv='charstack', trace_mod='CharStackTrace', gen=charstack_gen, rules=CS_RULES, level='model_checking',
+                          assumptions=['every zero-argument characteristic constructor found in /repo/characteristic at build time is put into one attribute database (plus filler accessories: 5, 8, 45 / 155 accessories) served by hc\'s real HTTP server (hap/http.NewServer) to a pair-verified reference controller over an encrypted TCP connection',
+                                       'value tokens are concretised per format: both booleans, integers at the declared minimum / maximum, floats at bounds and one step, tricky UTF-8 strings (quotes, backslashes, HTML characters, control characters, non-BMP runes), base64 payloads up to several frames',
+                                       'numbers are compared numerically (1 and 1.0 are the same float), strings byte for byte'],
+                          rule_text='TLC-generated operation words (local set, remote write, remote read, /accessories read, subscribe, unsubscribe over 3 value tokens) applied to every characteristic of the library through the full stack, and every id list up to the stated length over {readable, readable, write-only, missing}; distinct = abstract word; non-trivial = contains a write followed by a read, or a list with a failing id',
+                          nontrivial=lambda b: (b.get('kind') == 'list' and any(k in ('wo', 'missing') for k in b['steps'][0].get('ids', []))) or len([s for s in b['steps'] if s.get('a') in ('LocalSet', 'RemoteWrite')]) >= 1,
+                          extra_cov=extra, fpfun=fp)
+
+
+REGISTRY['C09'] = charstack_family
+
+
+@register('C11')
+def perms_family(run, replay=None):
+    """C11 = the permission rules over HTTP (charstack) and at the update API (charcell)."""
+    if replay:
+        fam = charstack_family if replay.get('family') == 'charstack' else charcell_family
+        return fam(run, replay=replay)
+    rc1 = charcell_family(run)
+    ev1 = json.load(open(os.path.join(ROOT, 'evidence', 'C11.json')))
+    run.mc = []
+    rc2 = charstack_family(run)
+    ev2 = json.load(open(os.path.join(ROOT, 'evidence', 'C11.json')))
+    ev2['coverage']['update_api_part'] = {k: v for k, v in ev1['coverage'].items() if k not in ('samples', 'rule')}
+    ev2['coverage']['states'] += ev1['coverage'].get('states', 0)
+    ev2['coverage']['transitions'] += ev1['coverage'].get('transitions', 0)
+    ev2['coverage']['traces_validated_against_impl'] += ev1['coverage'].get('traces_validated_against_impl', 0)
+    ev2['violations'] = ev1.get('violations', 0) + ev2.get('violations', 0)
+    ev2['wall_s'] = round(time.time() - run.t0, 2)
+    with open(os.path.join(ROOT, 'evidence', 'C11.json'), 'w') as f:
+        json.dump(ev2, f, indent=1)
+    return max(rc1, rc2)
